@@ -138,12 +138,12 @@ func zvC11Step(r *vh.Run, u zvC11Uni, hist []zvC11Op) (string, []zvC11Op, bool) 
 	// model
 	var present [3][3]bool             // [pfx][class] added and not removed by the history
 	var annID [3][3]uint32             // identifier the client saw in the AddPath of (pfx,class)
-	view := [3]map[uint32]zvoView{{}, {}, {}} // what a peer holds: per prefix, identifier -> attributes
-	classView := map[int]zvoView{}     // attributes (identifier blanked) the session advertises for a class
+	view := [3]map[uint32]*zvoView{{}, {}, {}} // what a peer holds: per prefix, identifier -> attributes
+	var classView [3]*zvoView          // attributes (identifier blanked) the session advertises for a class
 
-	clOf := func(v zvoView) int {
+	clOf := func(v *zvoView) int {
 		for k, cv := range classView {
-			if cv == v.zvoNoID() {
+			if cv != nil && *cv == v.zvoNoID() {
 				return k
 			}
 		}
@@ -208,13 +208,16 @@ func zvC11Step(r *vh.Run, u zvC11Uni, hist []zvC11Op) (string, []zvC11Op, bool) 
 				ok = false
 				break
 			}
-			v := adds[0].V
-			if cv, known := classView[cl]; known && cv != v.zvoNoID() {
+			v := &adds[0].V
+			if cv := classView[cl]; cv != nil && *cv != v.zvoNoID() {
 				r.Count("pruned_attribute_drift", 1)
 				ok = false
 				break
 			}
-			classView[cl] = v.zvoNoID()
+			if classView[cl] == nil {
+				nv := v.zvoNoID()
+				classView[cl] = &nv
+			}
 			annID[o.P][cl] = v.PathID
 			if old, dup := view[o.P][v.PathID]; dup && old.zvoNoID() != v.zvoNoID() {
 				viol(vh.Sig("clause", "unique", "differ", zvC11Differ(u, cl, clOf(old))), "prefix %s: path %d announced with identifier %d which already names a different path\n  held:      %s\n  announced: %s", pfxS, o.X, v.PathID, old, v)
@@ -264,7 +267,7 @@ func zvC11Step(r *vh.Run, u zvC11Uni, hist []zvC11Op) (string, []zvC11Op, bool) 
 	// state oracle: two different stored paths of one prefix never share an identifier
 	type ent struct {
 		pfx int
-		v   zvoView
+		v   *zvoView
 	}
 	var stored []ent
 	if ok {
@@ -273,9 +276,10 @@ func zvC11Step(r *vh.Run, u zvC11Uni, hist []zvC11Op) (string, []zvC11Op, bool) 
 			pi[p.String()] = i
 		}
 		for _, rt := range a.Dump() {
-			byID := map[uint32]zvoView{}
+			byID := map[uint32]*zvoView{}
 			for _, p := range rt.Paths() {
-				v := zvoViewOf(p)
+				vv := zvoViewOf(p)
+				v := &vv
 				stored = append(stored, ent{pi[rt.Prefix().String()], v})
 				if o, dup := byID[v.PathID]; dup && o.zvoNoID() != v.zvoNoID() {
 					ok = false
@@ -366,15 +370,20 @@ func annIDRank(a [3][3]uint32, rank map[uint32]int) [3][3]int {
 }
 
 func zvC11Universes(thorough bool) []zvC11Uni {
-	var us []zvC11Uni
-	for _, s := range []string{"ibgp", "rs", "ebgp", "rr"} {
+	var big, small []zvC11Uni
+	for _, s := range []string{"ibgp", "ebgp", "rs", "rr"} {
 		for _, p2 := range []string{"otc", "unknown_attr", "aggregator", "atomic_aggregate"} {
 			for _, p3 := range []string{"community", "as_path_content", "med"} {
-				us = append(us, zvC11Uni{s, p2, p3, 3})
+				if thorough || (p3 == "community" && (s == "ibgp" || s == "ebgp")) {
+					big = append(big, zvC11Uni{s, p2, p3, 3})
+				}
+				if !thorough {
+					small = append(small, zvC11Uni{s, p2, p3, 2})
+				}
 			}
 		}
 	}
-	return us
+	return append(big, small...) // the expensive ones first: they spread evenly over the shards
 }
 
 var zvC11Required = []string{"same_hash_different_attrs_on_one_prefix", "withdrawal_with_sibling_on_prefix", "release_of_shared_identifier",
@@ -385,7 +394,7 @@ func TestVerifC11(t *testing.T) {
 	defer r.Finish()
 	zvoTune()
 	r.Rule("per universe (session kind ibgp|rs-client|ebgp|rr-client x attribute in which path 2 differs from path 0 outside ComputeHash x attribute in which path 3 differs), " +
-		"BFS over all AddPath/RemovePath histories of 4 Loc-RIB paths (0 and 1 attribute-identical) on 3 prefixes against a real add-path AdjRIBOut until the canonical state " +
+		"BFS over all AddPath/RemovePath histories of 4 Loc-RIB paths (0 and 1 attribute-identical) on 3 prefixes (quick: 2 prefixes for every universe, 3 prefixes for 8 of them) against a real add-path AdjRIBOut until the canonical state " +
 		"(model, table, peer view, private pathIDManager maps and counters; identifiers ranked) set closes; evaluations = universes explored")
 	r.Require(zvC11Required...)
 	if r.IsReplay() {
